@@ -8,9 +8,10 @@ Case line:  `<C03|C16> <sum|aff> <ctl|own|big> [pm=<k>] ; op ; op ; …`
          the public `priority` field, so model and implementation build the same shapes;
 * `own`  priorities are rlib's (`*` in the case); the model draws its own from policy `pm`, which
          is sound for sequence-level observables because `seq` provably ignores priorities;
-* `big`  (C16 only) macro operations building up to 10^6 elements with rlib's priorities; the
-         model only keeps the element count, `heap=ok` is what `heap_history` proves and the
-         height bound is the measured (statistical) claim.
+* `big`  (C16 only) macro operations building up to 10^6 elements with rlib's priorities
+         (`append|front|alt|mid|singles|fromitem|scratch|burn c`, `rand|rot|del|pieces c seed`); the
+         model only keeps the element count, `ok` is what `heap_history` proves and the height
+         bound (and the share of distinct priorities) is the measured (statistical) claim.
 
 Operations: `new`, `item v p`, `merge i j`, `splitat i k`, `splitby i lt|le|gt|ge c`,
 `insert i k v p`, `remove i k`, `first i`, `last i`, `collect i`, `size i`, `agg i`, `tag i m…`, `drop i`.
@@ -120,24 +121,26 @@ def showSkel : Tree Unit → String
   | .nil => "."
   | .node _ p l r => "(" ++ showSkel l ++ toString p ++ showSkel r ++ ")"
 
-/-- C16 in the controlled stream: model shape and, from the spec (`cartShape` of the in-order
-    priorities), the shape the theorem `shape_canonical` says it must have. -/
-def shapeTok {T : Type} (spec : Bool) (t : Tree T) : String :=
-  if nodupB (prios t) then
-    "shape:" ++ showSkel (if spec then cartShape (prios t) else skel t)
-  else "ties"
+/-- C16, raw token: the shape, always (ties included, so that `merge`'s tie-break is compared). -/
+def shapeRaw (t : Tree Unit) : String := "shape:" ++ showSkel t
 
-/-- C16: step through the history, after every operation report heap order of every live treap. -/
+/-- C16, spec-level view of a shape: the shape when the priorities are pairwise distinct; `ties`
+    otherwise (how ties are broken is not part of the property, only of the correspondence). -/
+def shapeView (ps : List Nat) (t : Tree Unit) : String :=
+  if nodupB ps then "shape:" ++ showSkel t else "ties"
+
+/-- C16: step through the history; after every operation report heap order of every live treap.
+    Also returns the observations (the sizes drive the priority-list spec `runP`). -/
 def heapTrace {T G M : Type} (I : TItem T Int G M Int) :
-    List (Tree T) → List (Op Int M Int) → Option (List (Tree T) × List String)
-  | ts, [] => some (ts, [])
+    List (Tree T) → List (Op Int M Int) → Option (List (Tree T) × List String × List (Obs Int G))
+  | ts, [] => some (ts, [], [])
   | ts, op :: ops =>
     match stepM I ts op with
     | none => none
-    | some (ts', _) =>
+    | some (ts', o) =>
       match heapTrace I ts' ops with
       | none => none
-      | some (ts'', out) => some (ts'', (if ts'.all isHeap then "ok" else "BAD") :: out)
+      | some (ts'', out, os) => some (ts'', (if ts'.all isHeap then "ok" else "BAD") :: out, o :: os)
 
 def runCase {T G M : Type} (I : TItem T Int G M Int) (io : ItemIO G M)
     (focus stream : String) (pm : Nat) (opStrs : List String) : String :=
@@ -150,18 +153,23 @@ def runCase {T G M : Type} (I : TItem T Int G M Int) (io : ItemIO G M)
         let raw := " ".intercalate (mo.map (showObs io.showG false))
         let view := " ".intercalate (mo.map (showObs io.showG true))
         let spec := " ".intercalate (so.map (showObs io.showG true))
-        answer3 raw view (if runInDomB (G := G) I [] ops then spec else "any")
+        answer3 raw view (if runStatedB (G := G) I [] ops then spec else "any")
       | _, _ => answer "INVALID" "any"
     else
       match heapTrace I [] ops with
       | none => answer "INVALID" "any"
-      | some (ts, out) =>
+      | some (ts, out, os) =>
         let m := " ".intercalate (out.map (fun _ => "ok"))
         let v := " ".intercalate out
         if stream = "ctl" then
-          let shapesM := " ".intercalate (ts.map (shapeTok false))
-          let shapesS := " ".intercalate (ts.map (shapeTok true))
-          answer (v ++ " / " ++ shapesM) (m ++ " / " ++ shapesS)
+          -- spec: Cartesian trees of the priority lists computed from the operations and reported sizes
+          match runP [] ops os with
+          | none => "BAD-OPS"
+          | some ps =>
+            let raw := " ".intercalate (ts.map (fun t => shapeRaw (skel t)))
+            let view := " ".intercalate (ts.map (fun t => shapeView (prios t) (skel t)))
+            let spec := " ".intercalate (ps.map (fun p => shapeView p (cartShape p)))
+            answer3 (v ++ " / " ++ raw) (v ++ " / " ++ view) (m ++ " / " ++ spec)
         else answer v m
 
 /-- `big` stream: only the element count is modelled. -/
@@ -171,14 +179,16 @@ def bigStep (n : Nat) (toks : List String) : Option Nat :=
     match parseNat? c with
     | none => none
     | some c =>
-      if op = "append" ∨ op = "front" ∨ op = "alt" ∨ op = "mid" then some (n + c)
+      if op = "append" ∨ op = "front" ∨ op = "alt" ∨ op = "mid" ∨ op = "singles" ∨ op = "fromitem" ∨ op = "scratch"
+      then some (n + c)
+      else if op = "burn" then some n
       else none
   | [op, c, _seed] =>
     match parseNat? c with
     | none => none
     | some c =>
       if op = "rand" then some (n + c)
-      else if op = "rot" then some n
+      else if op = "rot" ∨ op = "pieces" then some n
       else if op = "del" then some (n - c)
       else none
   | _ => none
